@@ -62,6 +62,8 @@ Section Assoc.
     fold_left (fun acc kv => aset (fst kv) (snd kv) acc) src dst.
 End Assoc.
 
+Definition isSome {A} (o : option A) : bool := match o with Some _ => true | None => false end.
+
 (* ---- state ------------------------------------------------------------------------------------- *)
 Record combo := { c_from : nat; c_prim : option body; c_bef : option body; c_aft : option body; c_wrap : option body }.
 Record flavor := {
@@ -70,7 +72,9 @@ Record flavor := {
   f_vars : list (nat * val);            (* Flavor.defaultVars (without "self") *)
   f_keys : list (nat * val);            (* Flavor.keywords *)
   f_meths : list (mid * list nat);      (* Flavor.methods: message -> Method.Combinations (addresses) *)
-  f_prec : list nat                     (* Flavor.Precedence without the trailing instance, t *)
+  f_prec : list nat;                    (* Flavor.Precedence without the trailing instance, t *)
+  f_initable : list nat;                (* Flavor.initable: the flavor's OWN :inittable-instance-variables (not inherited by the code) *)
+  f_required : list nat                 (* Flavor.requiredKeywords: the flavor's OWN :required-init-keywords *)
 }.
 Record state := { st_flavors : list flavor; st_heap : list combo }.   (* allFlavors in definition order; all Combinations *)
 
@@ -79,7 +83,8 @@ Definition vanilla_combo : combo := {| c_from := vanilla; c_prim := Some BVanill
 (* vanilla.go gives vanilla-flavor sixteen methods, each one combination with a primary; one of them
    (:init, message MUser 0) stands for all *)
 Definition vanilla_flavor : flavor :=
-  {| f_name := vanilla; f_inherit := []; f_vars := []; f_keys := []; f_meths := [(MUser 0, [0])]; f_prec := [vanilla] |}.
+  {| f_name := vanilla; f_inherit := []; f_vars := []; f_keys := []; f_meths := [(MUser 0, [0])]; f_prec := [vanilla];
+     f_initable := []; f_required := [] |}.
 Definition init : state := {| st_flavors := [vanilla_flavor]; st_heap := [vanilla_combo] |}.
 
 Definition deref (h : list combo) (a : nat) : combo := nth a h (empty_combo vanilla).
@@ -93,7 +98,8 @@ Definition find_flavor (st : state) (g : nat) : option flavor := find (fun fl =>
 Definition tbl_of (fl : flavor) (m : mid) : list nat :=
   match lookup mid_eqb m (f_meths fl) with Some l => l | None => [] end.
 Definition with_meths (fl : flavor) (ms : list (mid * list nat)) : flavor :=
-  {| f_name := f_name fl; f_inherit := f_inherit fl; f_vars := f_vars fl; f_keys := f_keys fl; f_meths := ms; f_prec := f_prec fl |}.
+  {| f_name := f_name fl; f_inherit := f_inherit fl; f_vars := f_vars fl; f_keys := f_keys fl; f_meths := ms; f_prec := f_prec fl;
+     f_initable := f_initable fl; f_required := f_required fl |}.
 
 (* ---- defmethod / defwhopper: generic.DefClassMethod ------------------------------------------------ *)
 Definition set_slot (d : daemon) (b : body) (c : combo) : combo :=
@@ -189,7 +195,7 @@ Fixpoint inherit_flavor (v : version) (fuel : nat) (st : state) (obj : flavor) (
                               f_vars := merge_absent Nat.eqb (f_vars obj) (f_vars c);
                               f_keys := merge_absent Nat.eqb (f_keys obj) (f_keys c);
                               f_meths := merge_meths v (st_heap st) (f_meths obj) cf (f_meths c);
-                              f_prec := f_prec obj |} in
+                              f_prec := f_prec obj; f_initable := f_initable obj; f_required := f_required obj |} in
                fold_left (fun o f2 => match o with
                                       | None => None
                                       | Some o' => if f2 =? vanilla then Some o' else inherit_flavor v k st o' f2
@@ -207,11 +213,14 @@ Definition def_accessors (mk : nat -> mid) (bd : nat -> body) (vs : list nat) (h
 
 Definition inherit_fuel (st : state) : nat := S (length (st_flavors st)).
 
+(* (:inittable-instance-variables ...) bare or listed, (:required-init-keywords ...) *)
+Record iopts := { io_inits : accs; io_reqs : list nat }.
 Definition def_flavor (v : version) (st : state) (f : nat) (vars : list (nat * val)) (comps : list nat)
-           (keys : list (nat * val)) (gets sets : accs) : state * outcome :=
+           (keys : list (nat * val)) (gets sets : accs) (io : iopts) : state * outcome :=
   if existsb (fun fl => f_name fl =? f) (st_flavors st) then (st, ErrExists)
   else
-    let nf0 := {| f_name := f; f_inherit := []; f_vars := set_all Nat.eqb [] vars; f_keys := []; f_meths := []; f_prec := [] |} in
+    let nf0 := {| f_name := f; f_inherit := []; f_vars := set_all Nat.eqb [] vars; f_keys := []; f_meths := []; f_prec := [];
+                 f_initable := []; f_required := [] |} in
     let r := fold_left (fun o c => match o with
                                    | inl e => inl e
                                    | inr nf => match find_flavor st c with
@@ -227,7 +236,8 @@ Definition def_flavor (v : version) (st : state) (f : nat) (vars : list (nat * v
     | inr nf1 =>
         (* processFlavorOptions: :default-init-plist overwrites, then the accessors *)
         let nf2 := {| f_name := f; f_inherit := f_inherit nf1; f_vars := f_vars nf1;
-                      f_keys := set_all Nat.eqb (f_keys nf1) keys; f_meths := f_meths nf1; f_prec := [] |} in
+                      f_keys := set_all Nat.eqb (f_keys nf1) keys; f_meths := f_meths nf1; f_prec := [];
+                      f_initable := acc_vars (io_inits io) nf1; f_required := io_reqs io |} in
         let hf3 := def_accessors MGet BGetter (acc_vars gets nf2) (st_heap st, nf2) in
         let hf4 := def_accessors MSet BSetter (acc_vars sets nf2) hf3 in
         let st4 := {| st_flavors := st_flavors st; st_heap := fst hf4 |} in
@@ -236,19 +246,20 @@ Definition def_flavor (v : version) (st : state) (f : nat) (vars : list (nat * v
         | None => (st, ErrFuel)
         | Some nf5 =>
             let nf6 := {| f_name := f; f_inherit := f_inherit nf5; f_vars := f_vars nf5; f_keys := f_keys nf5;
-                          f_meths := f_meths nf5; f_prec := f :: f_inherit nf5 |} in
+                          f_meths := f_meths nf5; f_prec := f :: f_inherit nf5;
+                          f_initable := f_initable nf5; f_required := f_required nf5 |} in
             ({| st_flavors := st_flavors st ++ [nf6]; st_heap := fst hf4 |}, Ok)
         end
     end.
 
 (* ---- histories ------------------------------------------------------------------------------------ *)
 Inductive form :=
-| DFlavor (f : nat) (vars : list (nat * val)) (comps : list nat) (keys : list (nat * val)) (gets sets : accs)
+| DFlavor (f : nat) (vars : list (nat * val)) (comps : list nat) (keys : list (nat * val)) (gets sets : accs) (io : iopts)
 | DMethod (f : nat) (d : daemon) (m : mid) (id : nat) (cont : bool).    (* defmethod / defwhopper with a tracing body *)
 
 Definition step (v : version) (st : state) (x : form) : state * outcome :=
   match x with
-  | DFlavor f vars comps keys gets sets => def_flavor v st f vars comps keys gets sets
+  | DFlavor f vars comps keys gets sets io => def_flavor v st f vars comps keys gets sets io
   | DMethod f d m id cont => def_method v st f d m (BUser id cont)
   end.
 Fixpoint run (v : version) (st : state) (h : list form) : state * list outcome :=
@@ -347,10 +358,40 @@ Definition bound_send (v : version) (st : state) (f : nat) (m : mid) : out :=
                end
   end.
 
+(* ---- make-instance with init arguments: Instance.Init ------------------------------------------------------- *)
+(* for each keyword/value pair in order: an inittable instance variable is set ("len(cf.initable) == 0 ||
+   cf.initable[key]", then "cf.defaultVars[vkey]"); otherwise the pair goes to the plist handed to :init if the
+   keyword is in cf.keywords (own or inherited :default-init-plist / :init-keywords entry); otherwise an error.
+   Afterwards every cf.requiredKeywords entry must be among the keywords that went to the plist.
+   The result: the assignments made, in order, and the plist; None = the error. *)
+Definition initable_of (l : list nat) (k : nat) : bool := match l with [] => true | _ => existsb (Nat.eqb k) l end.
+Fixpoint init_loop (isvar iskey : nat -> bool) (args : list (nat * Z)) (upds plist : list (nat * Z)) : option (list (nat * Z) * list (nat * Z)) :=
+  match args with
+  | [] => Some (upds, plist)
+  | (k, z) :: r => if isvar k then init_loop isvar iskey r (upds ++ [(k, z)]) plist
+                   else if iskey k then init_loop isvar iskey r upds (plist ++ [(k, z)])
+                   else None
+  end.
+Definition init_gen (isvar iskey : nat -> bool) (req : list nat) (args : list (nat * Z)) : option (list (nat * Z) * list (nat * Z)) :=
+  match init_loop isvar iskey args [] [] with
+  | Some (u, p) => if forallb (fun k => existsb (Nat.eqb k) (map fst p)) req then Some (u, p) else None
+  | None => None
+  end.
+Definition make_instance (st : state) (f : nat) (args : list (nat * Z)) : option (list (nat * Z) * list (nat * Z)) :=
+  match find_flavor st f with
+  | None => None
+  | Some fl => init_gen (fun k => initable_of (f_initable fl) k && isSome (lookup Nat.eqb k (f_vars fl)))
+                        (fun k => isSome (lookup Nat.eqb k (f_keys fl))) (f_required fl) args
+  end.
+(* the value of variable v in the new instance: the last assignment, else the default *)
+Definition last_upd (v : nat) (upds : list (nat * Z)) : option Z :=
+  fold_left (fun acc kz => if fst kz =? v then Some (snd kz) else acc) upds None.
+Definition inst_value (dflt : option val) (v : nat) (upds : list (nat * Z)) : option val :=
+  match last_upd v upds with Some z => match dflt with Some _ => Some (Some z) | None => None end | None => dflt end.
+
 (* the table of a flavor for a message as the harness reads it from Flavor.Simplify():
    per combination its flavor and which daemons it has *)
 Definition shape := (nat * (bool * bool * bool * bool))%type.     (* from, (whopper, before, primary, after) *)
-Definition isSome {A} (o : option A) : bool := match o with Some _ => true | None => false end.
 Definition shape_of (c : combo) : shape := (c_from c, (isSome (c_wrap c), isSome (c_bef c), isSome (c_prim c), isSome (c_aft c))).
 Definition table (st : state) (f : nat) (m : mid) : list combo :=
   match find_flavor st f with Some fl => map (deref (st_heap st)) (tbl_of fl m) | None => [] end.
